@@ -438,7 +438,11 @@ impl PublishBuilder {
         } else {
             let rx =
                 self.shared.wait_publish_response(idx, AckType::Publish, self.packet, chunk);
-            let _ = tx.send(());
+            // payload can be streamed only if publish packet is written,
+            // otherwise stream gets cancelled
+            if rx.is_ok() {
+                let _ = tx.send(());
+            }
 
             rx?.await.map(Ack::publish).map_err(|_| SendPacketError::Disconnected)
         }
